@@ -54,7 +54,7 @@ theorem C07_witness_mysql_value :
     mysqlLex (renderLiteral true attack) = some (attack, []) := by
   decide
 
-/-- **T7.1 (partial)** `to_string()` against the library's own lexer: the printed literal is exactly one token -/
+/-- History (codec before 2843e02): `to_string()` against the old MindsDB lexer, partial -/
 theorem C07_tostring_partial (v rest : List Char) (hv : encOK v = true) (hr : rest.head? ≠ some '\'') :
     (lexQuote .mindsdb (constantToString v ++ rest)).map (fun t => (t.src, t.rest)) =
       some (constantToString v, rest) := by
@@ -64,13 +64,13 @@ theorem C07_tostring_partial (v rest : List Char) (hv : encOK v = true) (hr : re
   rw [e]
   simp [srcLit, lexQuote, hs]
 
-/-- **T7.1 for the codec of `docs/proposed_fixes/C04_2.diff`, full**: for every string the library's own reader (any
+/-- **T7.1, full (live code since /repo 2843e02, `Model/Codec.lean`)**: for every string the library's own reader (any
 dialect) reads the printed literal back as exactly the value and stops exactly behind it -/
 theorem C07_tostring_codec (v rest : List Char) (hr : rest.head? ≠ some '\'') :
     Codec.readString (Codec.constantToString v ++ rest) = some (v, rest) :=
   Codec.roundtrip v rest hr
 
-/-- the same value ends the library's own literal early: the token is `'\\'` -/
+/-- regression example (fixed: 2843e02): with the old printer the same value ended the literal early -/
 theorem C07_witness_tostring :
     (lexQuote .mindsdb (constantToString attack)).map (fun t => t.src) = some ['\'', '\\', '\\', '\''] := by
   decide
